@@ -215,17 +215,29 @@ def check(prog, rep, tier):
         rep.bad("C07.countmin-formula", "CountMinSketch.__init__", "no sizing from confidence / error_rate",
                 "no construction path derives width and depth from (confidence, error_rate) any more", init.where())
     # ------------------------------------------------------------------ cuckoo
+    # a remembered sub-term (log2 of the bucket size, say) stands for its formula when every writer of its inputs refreshes it
+    from ..common import expand_derived, maintained_derived
+    derived_, stale_ = maintained_derived(prog, "CuckooFilter")
+
+    def xd(v):
+        used = [d for d in stale_ if any(n[0] == "f" and n[1] == SELF and n[2] == d for n in walk(strip_epochs(v)))]
+        if used:
+            sf, sev, _ = stale_[used[0]]
+            rep.bad("C07.cuckoo-formula", f"CuckooFilter.{sf.src_name}", f"{used[0]} not refreshed",
+                    f"the sizing formulas read {used[0]}, which remembers {nshow(derived_[used[0]])}; {sf.src_name} assigns {sev.name} and does not refresh it afterwards: "
+                    "a reloaded filter derives its fingerprint size for a bucket size it does not have", sev.where())
+        return expand_derived(prog, "CuckooFilter", v)
     cf = prog.method("CuckooFilter", "_calc_fingerprint_size")
     er, bs, fsz = ("f", SELF, "_error_rate", 0), ("f", SELF, "_bucket_size", 0), ("f", SELF, "_fingerprint_size", 0)
     wantf = ("call", ("g", "int"), (mcall("ceil", ("bin", "+", ("bin", "+", mcall("log2", ("bin", "/", C(1.0), er)), mcall("log2", bs)), C(1))),), ())
     for p in paths(prog, "CuckooFilter", cf):
         if p.exit[0] == "return":
-            conform(rep, "C07.cuckoo-formula", "CuckooFilter._calc_fingerprint_size", "fingerprint bits", wantf, p.exit[1], cf.where())
+            conform(rep, "C07.cuckoo-formula", "CuckooFilter._calc_fingerprint_size", "fingerprint bits", wantf, xd(p.exit[1]), cf.where())
     ce = prog.method("CuckooFilter", "_calc_error_rate")
     wante = fl(("bin", "/", C(1), ("bin", "**", C(2), ("bin", "-", fsz, ("bin", "+", mcall("log2", bs), C(1))))))
     for p in paths(prog, "CuckooFilter", ce):
         if p.exit[0] == "return":
-            conform(rep, "C07.cuckoo-formula", "CuckooFilter._calc_error_rate", "error rate of a fingerprint size", wante, p.exit[1], ce.where())
+            conform(rep, "C07.cuckoo-formula", "CuckooFilter._calc_error_rate", "error rate of a fingerprint size", wante, xd(p.exit[1]), ce.where())
     se = prog.method("CuckooFilter", "_set_error_rate")
     oko = False
     for p in paths(prog, "CuckooFilter", se):
@@ -235,7 +247,7 @@ def check(prog, rep, tier):
             fin = p.fields.get((SELF, "_fingerprint_size"))
             from ..expr import mapx
             want_here = mapx(wantf, lambda n_: ("p", "error_rate") if n_ == er else None)
-            oko = oko and fin is not None and first_diff(canon(want_here), canon(fin)) is None
+            oko = oko and fin is not None and first_diff(canon(want_here), canon(expand_derived(prog, "CuckooFilter", fin))) is None
     if oko:
         rep.ok("C07.error-rate-order", "CuckooFilter._set_error_rate: rate stored, then fingerprint size derived and stored")
     else:
